@@ -29,20 +29,29 @@ func C15(r *core.Report) {
 	if run == nil {
 		return
 	}
+	// the function that holds the read loop: Run itself, or a method of the accumulator that Run calls (nextGroup)
+	loopFn := run
 	n := 0
+	inScope := map[*core.Func]bool{}
+	for _, h := range pkgScope(p, run, 2) {
+		if h.Lit == nil {
+			inScope[h] = true
+		}
+	}
 	for _, inst := range findOffsetInstances(p) {
-		if inst.Fn == run {
+		if inst.Fn == run || inScope[inst.Fn] {
 			n++
+			loopFn = inst.Fn
 			checkOffsetInstance(r, "C15.R1", inst)
 		}
 	}
 	if n == 0 {
 		r.Undecided("C15.R1", run.Key+"#read-loop", posP(r, run.Pos()), "loop reading CAR sections not found")
 	}
-	c15Ownership(r, run)
+	c15Ownership(r, loopFn)
 	c15Consumer(r, run)
 	c15Drain(r, run)
-	c15Groups(r, run)
+	c15Groups(r, loopFn)
 	c15ParentAlwaysDelivered(r)
 	c15IgnoreAppliesToChildrenOnly(r)
 	c15HeaderKeptAsParsed(r, "C15.R9")
@@ -60,6 +69,23 @@ func c15Ownership(r *core.Report, run *core.Func) { bufferOwnership(r, "C15.R2",
 
 func bufferOwnership(r *core.Report, rule string, run *core.Func) {
 	p := r.Prog
+	// the function that hands the groups over: Run itself or a method of the accumulator it calls
+	hands := func(fn *core.Func) bool {
+		for _, cs := range p.Calls(fn) {
+			if cs.Name == "accum.(*ObjectAccumulator).sendToFlusher" {
+				return true
+			}
+		}
+		return false
+	}
+	if !hands(run) {
+		for _, h := range pkgScope(p, run, 2) {
+			if h.Lit == nil && h != run && hands(h) {
+				run = h
+				break
+			}
+		}
+	}
 	info := run.Pkg.TypesInfo
 	g := p.Graph(run)
 	// hand-off sites: sendToFlusher(x, S) with S a local slice variable
@@ -89,7 +115,7 @@ func bufferOwnership(r *core.Report, rule string, run *core.Func) {
 		}
 		for i, l := range as.Lhs {
 			if core.ObjOf(info, l) == o && i < len(as.Rhs) {
-				if c, ok := core.Unparen(as.Rhs[i]).(*ast.CallExpr); ok && core.BuiltinName(info, c) == "make" {
+				if c, ok := core.Unparen(as.Rhs[i]).(*ast.CallExpr); ok && (core.BuiltinName(info, c) == "make" || callReturnsFresh(p, run, c)) {
 					return true
 				}
 				if core.IsNil(info, as.Rhs[i]) {
@@ -110,7 +136,7 @@ func bufferOwnership(r *core.Report, rule string, run *core.Func) {
 				return true
 			}
 			if core.ObjOf(info, l) == o && i < len(as.Rhs) {
-				if c, ok := core.Unparen(as.Rhs[i]).(*ast.CallExpr); ok && core.BuiltinName(info, c) == "make" {
+				if c, ok := core.Unparen(as.Rhs[i]).(*ast.CallExpr); ok && (core.BuiltinName(info, c) == "make" || callReturnsFresh(p, run, c)) {
 					return false
 				}
 				if core.IsNil(info, as.Rhs[i]) {
@@ -394,7 +420,7 @@ func c15Groups(r *core.Report, run *core.Func) {
 					}
 					for i, l := range as.Lhs {
 						if core.ObjOf(info, l) == co && i < len(as.Rhs) {
-							if mk, ok := core.Unparen(as.Rhs[i]).(*ast.CallExpr); ok && core.BuiltinName(info, mk) == "make" {
+							if mk, ok := core.Unparen(as.Rhs[i]).(*ast.CallExpr); ok && (core.BuiltinName(info, mk) == "make" || callReturnsFresh(p, run, mk)) {
 								return true
 							}
 						}
@@ -427,4 +453,60 @@ func c15Groups(r *core.Report, run *core.Func) {
 		}
 	}
 	r.Check(okEOF && nFinal >= 1, rule, run.Key+"#final-group-at-eof", posP(r, run.Pos()), "at end of file the remaining objects are delivered as a final group", "objects after the last parent are dropped at end of file")
+}
+
+// callReturnsFresh: the call runs a function or a local closure all of whose returns yield a newly made slice (make, nil,
+// a composite literal) that does not depend on the arguments - an allocator like newGroup := func() []T { return make(..) }.
+func callReturnsFresh(p *core.Prog, in *core.Func, call *ast.CallExpr) bool {
+	info := in.Pkg.TypesInfo
+	var targets []*core.Func
+	if fo := core.Callee(info, call); fo != nil {
+		if h := p.ByObj[fo.Origin()]; h != nil {
+			targets = append(targets, h)
+		}
+	} else if v, ok := core.ObjOf(info, call.Fun).(*types.Var); ok && !v.IsField() {
+		targets = p.FuncValuesOf(v, in)
+	}
+	if len(targets) == 0 {
+		return false
+	}
+	for _, h := range targets {
+		if h.Body == nil {
+			return false
+		}
+		hi := h.Pkg.TypesInfo
+		n := 0
+		fresh := true
+		ast.Inspect(h.Body, func(m ast.Node) bool {
+			if l, isLit := m.(*ast.FuncLit); isLit && l != h.Lit {
+				return false
+			}
+			rs, ok := m.(*ast.ReturnStmt)
+			if !ok {
+				return true
+			}
+			n++
+			if len(rs.Results) != 1 {
+				fresh = false
+				return true
+			}
+			e := core.Unparen(rs.Results[0])
+			switch x := e.(type) {
+			case *ast.CallExpr:
+				if core.BuiltinName(hi, x) != "make" {
+					fresh = false
+				}
+			case *ast.CompositeLit:
+			default:
+				if !core.IsNil(hi, e) {
+					fresh = false
+				}
+			}
+			return true
+		})
+		if n == 0 || !fresh {
+			return false
+		}
+	}
+	return true
 }
